@@ -277,6 +277,14 @@ def run(ctx: Ctx) -> None:
     rep.rule("C12.R5", "the wrapped and the bare store answer alike because reading changes nothing: the reading methods of the memory store change none of its tables (a fetch that consumed the blob would be masked by the cache)")
     _n_mrp = _mrp(ctx, "C12.R5")
     rep.floor("C12.R5", _n_mrp, 3)
+    rep.rule("C12.R6", "the wrapper treats the objects it fetches as opaque (None test, cache, return, type()): it answers as the bare store also for objects that cannot be printed")
+    n6 = fetched_value_opaque(ctx, "C12.R6")
+    rep.floor("C12.R6", n6, 3)
+    from . import storerules as _S12
+    rep.rule("C12.R7", "the bare local store is consistent with itself on what 'present' means (has_blob and fetch_blob use the same existence predicate), so that the wrapper - which "
+                       "answers from what it fetched - never disagrees with it")
+    n7 = _S12.presence_predicates_agree(ctx, _S12.LocalView(ctx), "C12.R7")
+    rep.floor("C12.R7", n7, 2)
     n3 = passthrough_rules(ctx, "C12.R3")
     rep.floor("C12.R3", n3, 6)
 
@@ -527,3 +535,39 @@ def decode_cache_objects(ctx: Ctx, wrap: Class) -> None:
         rep.ok("C12.R4", f.qname, desc + f" ({len(cases)} input classes)", f.loc())
     rep.floor("C12.R4", len(cases), 9)
 
+
+
+def fetched_value_opaque(ctx: Ctx, rule: str) -> int:
+    """The cache wrapper does nothing with a fetched object but compare it with None, keep it, and hand it out (and ask for its type): it never formats it,
+    calls a method of it or passes it to anything else - `str(blob)` / `repr(blob)` may be expensive or raise for an object the bare store returns without trouble."""
+    rep = ctx.report
+    prog = ctx.prog
+    wrap, cache, cache_attr, store_attr, mapping = find_classes(ctx)
+    n = 0
+    for mname in ("fetch_blob", "store_blob"):
+        m = wrap.methods.get(mname)
+        if m is None:
+            continue
+        vals = set()
+        for st in m.own_nodes():
+            if isinstance(st, (ast.Assign, ast.AnnAssign)) and isinstance(st.value, ast.Call) and _self_attr_call(st.value, store_attr) == "fetch_blob":
+                t = st.targets[0] if isinstance(st, ast.Assign) else st.target
+                if isinstance(t, ast.Name):
+                    vals.add(t.id)
+        if mname == "store_blob":
+            vals |= {p_ for p_ in m.positional_params() if p_ == "blob"}
+        for y in m.own_nodes():
+            if not (isinstance(y, ast.Name) and y.id in vals and isinstance(y.ctx, ast.Load)):
+                continue
+            par = m.module.parent.get(y)
+            n += 1
+            ok = isinstance(par, ast.Return) or (isinstance(par, ast.Compare) and all(isinstance(o, (ast.Is, ast.IsNot)) for o in par.ops)) \
+                or (isinstance(par, ast.Call) and (unparse(par.func) == "type" or _self_attr_call(par, cache_attr) is not None or _self_attr_call(par, store_attr) is not None))
+            desc = f"{wrap.name}.{mname}: the object `{y.id}` is only tested against None, kept and handed on"
+            if ok:
+                rep.ok(rule, m.qname, desc, m.loc(y), nontrivial=False)
+            else:
+                rep.bad(rule, m.qname, desc, m.loc(y), [f"{m.loc(y)}: `{unparse(par, 70) if par is not None else y.id}` uses the object itself",
+                        "a blob whose __repr__ / __str__ raises (or takes minutes: a large data frame) makes the wrapped fetch fail where the bare store returns the object"],
+                        stmt_key(par if par is not None else y), what="the cache wrapper formats / inspects the fetched object")
+    return n
